@@ -225,7 +225,8 @@ def check(ctx: Ctx, rep: Report):
             if not any(ev.kind == "test" and _illegal_choice(ev) == "illegal" for ev in p.events):
                 continue
             n += 1
-            pops = [ev for ev in p.events if ev.kind == "call" and (call_chain(ev.node) or ())[-2:] == ("_settings", "pop")]
+            pops = [ev for ev in p.events if ev.kind == "call" and (call_chain(ev.node) or ())[-2:] == ("_settings", "pop")
+                    and ev.node.args and norm(ev.node.args[0]) == "%s.id_" % rs.params[1]]
             if not pops and bad is None:
                 bad = p
         if n == 0:
